@@ -7,7 +7,7 @@ META = {
     'files': ragged.FILES,
     'functions': ['RaggedArray.__setitem__ (element, row, 2-D slice, mask)', 'RaggedArray.append', 'RaggedArray.map_operator and the '
                   'operator dunders', 'RaggedArray.__init__ copy handling'],
-    'bounds': {'quick': 'inductive step: ONE mutating operation with symbolic operands from any constructor-built array with <=3 rows of '
+    'bounds': {'quick': 'inductive step: ONE mutating operation (also preceded by an observing step that touches every derived view: three-step histories) with symbolic operands from any constructor-built array with <=3 rows of '
                         'length 1..3 (state = lengths vector x symbolic contents), then the representation invariant and all row/flat '
                         'observers are compared with the list-of-rows model; binary operators (+,-,*,//,%,==,<,>=, |,& on bools excluded) '
                         'between ragged arrays and with a scalar', 'thorough': 'all lengths vectors, more operand shapes'},
@@ -34,6 +34,9 @@ def jobs(tier):
             add('write_job', 'write[%s,%s,iadd]' % (list(lv), form), lengths=lv, op=('iadd',), form=form)
             add('write_job', 'write[%s,%s,append-rows]' % (list(lv), form), lengths=lv, op=('append-rows', (2, 1)), form=form)
         add('write_job', 'write[%s,append-ra]' % list(lv), lengths=lv, op=('append-ra', (1, 2)))
+        # three-step histories: observe (may populate derived state), mutate, observe
+        for op_ in (('append-rows', (2, 1)), ('append-ra', (1, 2)), ('elem', 0, 0), ('row', 0), ('iadd',)):
+            add('write_job', 'history[%s,observe+%s]' % (list(lv), op_[0]), lengths=lv, op=op_, touch=True)
         add('write_job', 'write[%s,row-otherlen]' % list(lv), lengths=lv, op=('row-otherlen', n - 1, lv[-1] + 1))
         add('write_job', 'write[%s,slice2d(:,0:1)]' % list(lv), lengths=lv, op=('slice2d', slice(None), slice(0, 1)))
         add('write_job', 'write[%s,slice2d(:,0:2)]' % list(lv), lengths=lv, op=('slice2d', slice(None), slice(0, 2)))
